@@ -71,6 +71,12 @@ func main() {
 		os.Exit(cmdCheck(pos[0], *tier, *jobs))
 	case "all":
 		os.Exit(cmdAll(*tier, *jobs))
+	case "multi":
+		ps := pos
+		if len(ps) == 0 {
+			ps = propsList()
+		}
+		os.Exit(cmdMulti(ps, *tier, *jobs))
 	case "lock":
 		os.Exit(cmdLock(*jobs))
 	case "replay":
@@ -99,6 +105,7 @@ type Session struct {
 	started time.Time
 	loadMs  int64
 	tables  *tableDump
+	vcCache map[string]*FnVC // per contract: generated once per session (a session may check several properties)
 }
 
 func contractsFile() string { return filepath.Join(repoDir, "src", "contracts_verif.go") }
@@ -180,7 +187,15 @@ func (s *Session) generate(ct *Contract) (*FnVC, error) {
 	if fn == nil {
 		return nil, fmt.Errorf("contract %s (%s): no such function in package main", ct.Name, ct.Source)
 	}
-	return GenerateVC(s.g, fn, ct), nil
+	if vc, ok := s.vcCache[ct.Name]; ok {
+		return vc, nil
+	}
+	vc := GenerateVC(s.g, fn, ct)
+	if s.vcCache == nil {
+		s.vcCache = map[string]*FnVC{}
+	}
+	s.vcCache[ct.Name] = vc
+	return vc, nil
 }
 
 func hasProp(props []string, p string) bool {
